@@ -47,6 +47,7 @@ def run(ctx):
     attach(r3, qsend.selprep_sites(db), prefixes=['selprep:', 'main:'])
     ms = qsend.analyse_main(db, rep)
     attach(r3, ms, only={'main:ALRM-handled-before-the-wakeup-time-is-computed', 'main:HUP-handled-before-the-wakeup-time-is-computed'})
-    r3.expect_min(11)
+    attach(r3, qsend.analyse_progress(db, rep), prefixes=['progress:'])
+    r3.expect_min(14)
     rep.assume('select() returns when a descriptor is readable or the timeout expires; fifo semantics of lock/trigger',
                'the classical lost-wake-up argument needs exactly the two orderings decided here; the interleaving itself is not explored')
